@@ -209,6 +209,7 @@ func (fr *Frame) run(st *State, args []*Val) (*State, []*Val) {
 				vals[i] = fr.val(cur, r)
 			}
 			fr.rets = append(fr.rets, &retRec{cur, vals})
+			fr.literalEnsures(cur, vals, t.Pos())
 			if fr.depth == 0 {
 				x.cover(cur, "return "+x.w.nodeTextAt(t.Pos()), t.Pos())
 			}
@@ -1112,4 +1113,47 @@ func (fr *Frame) modelVars() []ModelVar {
 		}
 	}
 	return out
+}
+
+// literalEnsures: `literal K ensures e` of the function under verification,
+// checked where its function literal $K returns (run in place or on its own).
+func (fr *Frame) literalEnsures(st *State, vals []*Val, pos token.Pos) {
+	x := fr.x
+	if fr.fn.Parent() == nil {
+		return
+	}
+	gc := fr.gateContract()
+	if gc == nil || len(gc.LitEns) == 0 {
+		return
+	}
+	root := fr.fn
+	for root.Parent() != nil {
+		root = root.Parent()
+	}
+	suffix := strings.TrimPrefix(fr.fn.Name(), root.Name()+"$")
+	if !pos.IsValid() {
+		pos = fr.fn.Pos()
+	}
+	for _, lc := range gc.LitEns {
+		if lc.Lit != suffix {
+			continue
+		}
+		env := fr.specEnv(st)
+		env.vars = map[string]*Val{}
+		env.lookup = func(s *State, name string) (*Val, bool) { return fr.lookupLocal(s, name, pos) }
+		for i, v := range vals {
+			env.vars[fmt.Sprintf("r%d", i)] = v
+			env.vars[fmt.Sprintf("result%d", i)] = v
+		}
+		if len(vals) == 1 {
+			env.vars["result"] = vals[0]
+		}
+		g, err := env.evalBool(lc.Clause.Expr)
+		if err != nil {
+			x.vc.diag("%s: literal %s ensures %q: %v", fr.fn.String(), lc.Lit, lc.Clause.Text, err)
+			g = "false"
+		}
+		x.oblige(st, "literal", "$"+lc.Lit+" returns: "+lc.Clause.Text, pos, g, lc.Clause.Tags, false)
+		lc.Clause.Label = "bound"
+	}
 }
